@@ -2,6 +2,8 @@
 
 package lsm
 
+import "sync/atomic"
+
 // VerifQueueThrottle drives the same entry point AdjustThrottle uses (throttleWrites), so the
 // DB-level callback and the LSM-level `throttled` latch move together.
 func (lsm *LSM) VerifQueueThrottle(on bool) { lsm.throttleWrites(on) }
@@ -12,4 +14,15 @@ func (lsm *LSM) VerifQueuePauseCompaction() {
 	if lsm != nil && lsm.levels != nil && lsm.levels.compaction != nil {
 		lsm.levels.compaction.VerifQueuePause()
 	}
+}
+
+// VerifQueueMemFree returns MemTableSize minus the active memtable's accounted WAL size,
+// the quantity SetBatch compares an entry's size estimate with.
+func (lsm *LSM) VerifQueueMemFree() int64 {
+	lsm.lock.RLock()
+	defer lsm.lock.RUnlock()
+	if lsm.memTable == nil {
+		return 0
+	}
+	return lsm.option.MemTableSize - atomic.LoadInt64(&lsm.memTable.walSize)
 }
